@@ -206,10 +206,19 @@ func (e *Eval) formatted(x Val, format func(v uint64) string) Val {
 // tableByte is table[i] for a symbolic index; ok=false when the index can be
 // out of range.
 func (e *Eval) tableByte(table [][]int, idx []int) ([]int, bool) {
+	return e.tableByteUnder(table, idx, 1)
+}
+
+// tableByteUnder: index values that cannot occur under the condition given
+// (the path condition of the read) are not looked at.
+func (e *Eval) tableByteUnder(table [][]int, idx []int, here int) ([]int, bool) {
 	m := e.M
 	out := make([]int, 8)
 	ok := true
 	e.enum(idx, func(v uint64, cond int) {
+		if m.And(here, cond) == 0 {
+			return
+		}
 		if v >= uint64(len(table)) {
 			ok = false
 			return
@@ -293,6 +302,36 @@ func (e *Eval) symCall(name string, c *ssa.CallCommon, args []Val, cond int) (Va
 			el[lo+i] = nw
 		}
 		return Opaque("void"), true
+	}
+	if name == "builtin.clear" && len(args) == 1 && args[0].Kind == KSlice && (args[0].cell == nil || args[0].cell.items == nil) {
+		// zero the window in place, under the condition of the call
+		el := args[0].Elems
+		for i := args[0].Lo; i < args[0].Hi; i++ {
+			nw := make([]int, len(el[i]))
+			for b := range nw {
+				nw[b] = e.M.Ite(cond, 0, el[i][b])
+			}
+			el[i] = nw
+		}
+		return Opaque("void"), true
+	}
+	if name == "builtin.copy" && len(args) == 2 && args[0].Kind == KSlice && (args[0].cell == nil || args[0].cell.items == nil) {
+		// memmove semantics: the source is read before anything is written
+		src, ok := e.strBytes(args[1])
+		if !ok {
+			return Val{}, false
+		}
+		src = append([][]int(nil), src...)
+		el, lo := args[0].Elems, args[0].Lo
+		n := min(len(src), args[0].Hi-args[0].Lo)
+		for i := 0; i < n; i++ {
+			nw := make([]int, 8)
+			for b := range nw {
+				nw[b] = e.M.Ite(cond, src[i][b], el[lo+i][b])
+			}
+			el[lo+i] = nw
+		}
+		return e.Const(int64(n), 64, true), true
 	}
 	switch name {
 	case "(*strings.Builder).WriteString", "(*bytes.Buffer).WriteString", "(*strings.Builder).Write", "(*bytes.Buffer).Write":
